@@ -8,6 +8,20 @@ from lib import vfmt
 
 # ------------------------------------------------------------------ script generation
 def gen_script(rng, tier, focus=None):
+    if focus == 'late':
+        # replies that arrive after their call timed out, while later calls are in flight on the same connection
+        stack = rng.choice(['mux', 'mux', 'thrift'])
+        D = rng.choice([60, 120, 200])
+        steps = [['srv', 0, 'delay', D], ['adv', 50]]
+        for _ in range(rng.choice([1, 2, 3])):
+            T = rng.choice([11, 23, 37, 58])
+            steps += [['call', T] for _ in range(rng.choice([1, 2]))]
+            steps.append(['adv', T + rng.choice([3, 12, 30])])
+            steps += [['call', D + rng.choice([50, 107, 250])] for _ in range(rng.choice([1, 2]))]
+            steps.append(['adv', rng.choice([5, 31, D])])
+        steps += [['adv', D + 100], ['adv', 400]]
+        return {'stack': stack, 'neps': 1, 'open_delay': 0, 'pool': [1, 1, 100] if stack == 'thrift' else None,
+                'steps': steps, 'aged': False}
     if focus == 'edge':
         # deadlines that fall a few milliseconds after the moment a hop lets the request through (a connect finishing,
         # a pooled connection coming back, the client's open completing): the window in which a timer that fires
